@@ -62,6 +62,15 @@ def uses_custom_verify(cid, depth=0, seen=()):
     return False
 
 
+def swapcase_literal(enum):
+    """a literal of the enumeration in another letter case that is not itself a literal"""
+    for lit in enum:
+        for cand in (lit.swapcase(), lit.upper(), lit.lower(), lit.capitalize()):
+            if cand not in enum:
+                return cand
+    return 'not-in-the-enumeration'
+
+
 def build(v):
     t = table()[v['cls']]
     inst = minimal(v['cls'])
@@ -79,12 +88,13 @@ def build(v):
         a = [x for x in t['attributes'] if x['member'] == v['which']][0]
         setattr(inst, v['which'], WRONG[(a['type'], v['how'])])
     elif kind == 'bad_enum':
-        setattr(inst, v['which'], 'not-in-the-enumeration')
+        a = [x for x in t['attributes'] if x['member'] == v['which']][0]
+        setattr(inst, v['which'], swapcase_literal(a['enum']) if v.get('how') == 'case' else 'not-in-the-enumeration')
     elif kind == 'bad_text':
         base = 'dateTime' if t['text_base'] == 'datetime' else t['text_base']
         inst.text = WRONG[(base, v['how'])]
     elif kind == 'bad_text_enum':
-        inst.text = 'not-in-the-enumeration'
+        inst.text = swapcase_literal(t['text_enum']) if v.get('how') == 'case' else 'not-in-the-enumeration'
     return inst
 
 
